@@ -39,6 +39,9 @@ static Fields gen(Tape &t) {
     f.set("ops." + std::to_string(i), ops);
   }
   f.seti("wide", t.below(2));
+  // a caller may fill in or edit a UriUri by hand: the absolute-path flag is documented as irrelevant for URIs with a host,
+  // so it may well be set there; one workload in six shares operands edited that way
+  f.seti("handedit", t.chance(5, 6) ? 0 : 1);
   return f;
 }
 
@@ -137,6 +140,8 @@ template <class A> static std::string do_op_mm(const Shared<A> &S, char op, Ledg
 template <class A> static Verdict run_workload(const Fields &f, int *sharedOps) {
   Shared<A> S;
   if (!S.init(f)) return Verdict::discard();
+  if (f.geti("handedit")) for (typename A::Uri *u : {&S.base, &S.src, &S.ref}) if (u->hostText.first != nullptr) u->absolutePath = URI_TRUE;
+  const std::string frozenBase0 = freeze<A>(S.base), frozenSrc0 = freeze<A>(S.src), frozenRef0 = freeze<A>(S.ref);
   int T = (int)f.geti("threads");
   std::vector<std::string> lists((size_t)T);
   for (int i = 0; i < T; i++) lists[(size_t)i] = f.get("ops." + std::to_string(i));
@@ -152,7 +157,8 @@ template <class A> static Verdict run_workload(const Fields &f, int *sharedOps) 
         return Verdict::fail(std::string(A::name()) + ": op '" + l[j] + "' with allocation " + l[j + 2] + " failing: " + esc(expect[key]) + " (a call on a private object released or kept memory that is not its own)");
     }
   }
-  std::string frozenBase = freeze<A>(S.base), frozenSrc = freeze<A>(S.src), frozenRef = freeze<A>(S.ref);
+  VF_REQUIRE(freeze<A>(S.base) == frozenBase0 && freeze<A>(S.src) == frozenSrc0 && freeze<A>(S.ref) == frozenRef0, "%s: a call that takes the shared URIs as read-only arguments modified one of them (single-threaded)", A::name());
+  std::string frozenBase = frozenBase0, frozenSrc = frozenSrc0, frozenRef = frozenRef0;
   std::atomic<int> ready{0};
   std::atomic<bool> go{false};
   std::vector<std::string> errs((size_t)T);
@@ -279,6 +285,7 @@ static Verdict check(const Fields &f) {
   int T = (int)f.geti("threads");
   stats().hit("threads=" + std::to_string(T));
   stats().hit(f.geti("wide") ? "api=wchar_t" : "api=char");
+  if (f.geti("handedit")) stats().hit("shared_operands_edited_by_hand");
   if (T >= 2 && sharedOps >= 2) stats().nontrivial(f.text(), f.text().substr(0, 400));
   return Verdict::pass();
 }
